@@ -4,7 +4,7 @@ from __future__ import annotations
 import math
 
 from .. import oracles as O
-from ..core import CaseResult, bind_repo
+from ..core import CaseResult, bind_repo, variants
 
 PROP = "C16"
 LEVEL = "model_checking"
@@ -83,6 +83,21 @@ def check_case(case):
             dv = float("inf")
             out = repr(ex)
         r.check("formula-" + nm, dv, 1e-6 if nm == "float32 array" else 1e-12, el + ":formula:" + nm, "FormFactor = sum a_i exp(-b_i s^2) + c for %s argument" % nm, None, out if isinstance(out, str) else None)
+    # memory layouts and containers of a non-symmetric 2-d / 3-d map of s values (detector images are often transposed views or Fortran
+    # ordered): element [i, j] of the result must be the form factor of element [i, j] of the argument.  Lists and tuples are not
+    # accepted by the unchanged library (stl*stl) and are left out; positionally and by keyword.
+    nolist = ("list", "tuple", "int list", "int tuple", "list of np.float64")
+    m2 = np.array([[0.0, 0.05, 0.31], [0.72, 1.1, 1.93]])
+    m3 = np.arange(24, dtype=float).reshape(2, 3, 4) / 12.0
+    mi = np.array([[0.0, 1.0, 2.0], [2.0, 0.0, 1.0]])
+    for tag, m in (("2-d", m2), ("3-d", m3), ("whole-number 2-d", mi), ("1-d", m2[1])):
+        want = np.vectorize(lambda s_: O.formfactor_ref(coef, float(s_)))(m)
+        out = np.asarray(structure.FormFactor(el, m), float)
+        r.check("formula-" + tag, float(np.max(np.abs(out - want) / np.maximum(1.0, np.abs(want)))) if out.shape == want.shape else float("inf"), 1e-12,
+                el + ":formula:" + tag, "FormFactor element by element on a %s array" % tag)
+        variants(r, el + ":FormFactor(%s)" % tag, structure.FormFactor, [el, m], 1, 1e-12, 1e-5, skip=nolist)
+    variants(r, el + ":FormFactor(scalar)", structure.FormFactor, [el, 0.25], 1, 1e-12, 1e-5)
+    variants(r, el + ":FormFactor(scalar 1)", structure.FormFactor, [el, 1.0], 1, 1e-12, 1e-5)
     # history: one work buffer reused with different contents (a memo keyed on object identity would return stale values),
     # and the same buffer used for another element in between
     from ..core import reuse
